@@ -72,8 +72,15 @@ func snapshot(x any) J {
 	case reflect.Map:
 		keys := []string{}
 		vals := map[string]any{}
+		seen := map[string]int{}
+		for _, k := range rv.MapKeys() {
+			seen[fmt.Sprint(k.Interface())]++
+		}
 		for _, k := range rv.MapKeys() {
 			ks := fmt.Sprint(k.Interface())
+			if seen[ks] > 1 { // 1, int64(1), 1.0 and "1" as keys of one map[any]any: told apart by their types
+				ks += fmt.Sprintf("/%T", k.Interface())
+			}
 			keys = append(keys, ks)
 			vals[ks] = rv.MapIndex(k).Interface()
 		}
